@@ -1,3 +1,5 @@
+import SccacheModel.Model.RustArgs
+
 namespace ArgsM
 
 /-! Sketch (design round): model of `compiler::args::ArgsIter` and of the gcc/clang
@@ -114,17 +116,20 @@ def processInfo (i : ArgInfo) (arg : Bytes) (rest : List Bytes) : Except PErr (A
 def tokenize (search : Bytes → Option ArgInfo) (ddMode : Bool) : Nat → Bool → List Bytes → List (Except PErr Argument)
   | 0, _, _ => []
   | _, _, [] => []
-  | fuel + 1, seenDD, arg :: rest =>
-    let seenDD := seenDD || (ddMode && arg == sb "--")
-    if ddMode && seenDD then .ok (.raw arg) :: tokenize search ddMode fuel seenDD rest
+  | fuel + 1, seenDD, raw :: rest =>
+    let seenDD := seenDD || (ddMode && raw == sb "--")
+    if ddMode && seenDD then .ok (.raw raw) :: tokenize search ddMode fuel seenDD rest
     else
+      -- the table is searched and concatenated values are cut on `arg.to_string_lossy()`; raw and unknown arguments and
+      -- separated values keep their bytes (finding F-C01-b: a non-UTF-8 byte in a concatenated value becomes U+FFFD)
+      let arg := RArgsM.lossy raw
       match search arg with
       | some i =>
         match processInfo i arg rest with
         | .ok (a, rest') => .ok a :: tokenize search ddMode fuel seenDD rest'
         | .error e => [.error e]
       | none =>
-        let a := if arg.head? == some 45 then Argument.unknownFlag arg else Argument.raw arg
+        let a := if arg.head? == some 45 then Argument.unknownFlag raw else Argument.raw raw
         .ok a :: tokenize search ddMode fuel seenDD rest
 
 def Argument.flagStr : Argument → Option Bytes
@@ -345,10 +350,43 @@ def finish (plusplus : Bool) (st : St) : PRes :=
     | none => .cannotCache (sb "unknown source language")
     | some lang => .ok (finishWith st input lang)
 
-def parseArgs (search : Bytes → Option ArgInfo) (clang plusplus multiArchOk : Bool) (argv : List Bytes) : PRes :=
+/-- one iteration of the second loop of `parse_arguments`: the values collected from `-Xclang` are parsed again (both tables, no
+    `--` mode) and sorted into the same lists, each string preceded by `-Xclang`; `follows` = the previous argument was `-plugin-arg` -/
+def classifyX (follows : Bool) (st : St) (a : Argument) : Except Bytes (St × Bool) :=
+  let strs := a.strings.flatMap fun s => [sb "-Xclang", s]
+  let next := a.flagStr == some (sb "-plugin-arg")
+  match a.variant with
+  | some .splitDwarf | some .pedanticFlag | some .standard | some .profileGenerate | some .clangProfileUse | some .testCoverage
+  | some .coverage | some .doCompilation | some .language | some .output | some .tooHardFlag | some .xClang | some .tooHard =>
+    .error ((a.flagStr).getD (sb "Can't handle complex arguments through clang"))
+  | some .diagnosticsColor | some .diagnosticsColorFlag | some .noDiagnosticsColorFlag | some .arch | some .passThrough
+  | some .passThroughFlag | some .passThroughPath | some .serializeDiagnostics | some .extraHashFile =>
+    .ok ({ st with common := st.common ++ strs }, next)
+  | some .unhashed | some .unhashedFlag => .ok ({ st with unhashed := st.unhashed ++ strs }, next)
+  | some .preprocessorArgumentFlag | some .preprocessorArgument | some .preprocessorArgumentPath => .ok ({ st with pre := st.pre ++ strs }, next)
+  | some .depTarget | some .depArgumentPath | some .needDepTarget => .ok ({ st with dep := st.dep ++ strs }, next)
+  | none =>
+    match a with
+    | .raw _ => if follows then .ok ({ st with common := st.common ++ strs }, next) else .error (sb "Can't handle Raw arguments with -Xclang")
+    | _ => .error (sb "Can't handle UnknownFlag arguments with -Xclang")
+
+def classifyXAll : Bool → St → List (Except PErr Argument) → Except Bytes St
+  | _, st, [] => .ok st
+  | _, _, .error _ :: _ => .error (sb "argument parse")
+  | follows, st, .ok a :: as =>
+    match classifyX follows st a with
+    | .ok (st', f') => classifyXAll f' st' as
+    | .error e => .error e
+
+/-- `searchX` = the search over (gcc, clang) tables used for the `-Xclang` values, whatever the compiler kind -/
+def parseArgs (search : Bytes → Option ArgInfo) (clang plusplus multiArchOk : Bool) (argv : List Bytes)
+    (searchX : Bytes → Option ArgInfo := search) : PRes :=
   match classifyAll multiArchOk {} (tokenize search clang (argv.length + 1) false argv) with
   | .error e => .cannotCache e
-  | .ok st => if st.xclangs.isEmpty then finish plusplus st else .cannotCache (sb "(-Xclang not modelled in this sketch)")
+  | .ok st =>
+    match classifyXAll false st (tokenize searchX false (st.xclangs.length + 1) false st.xclangs) with
+    | .error e => .cannotCache e
+    | .ok st' => finish plusplus st'
 
 /-- argument vector of `generate_compile_commands` -/
 def regen (p : Parsed) : List Bytes :=
